@@ -46,6 +46,32 @@ Theorem illegal_padding_rejected : forall (m : pmode) (c : R) (cast : bool) (x y
 Proof. exact illegal_rejected. Qed.
 Print Assumptions illegal_padding_rejected.
 
+(* T1: the size guard of a pad mode (order0: n >= 1, order1: n >= 2, and the pad-length
+   limits of periodic / symmetric) is consulted ONLY for axes that are extended
+   (n_new > n_old, in the adjoint direction: n_old > n_new).  Axes that are kept or
+   cropped pass [_apply_padding] unchanged whatever their length (0, 1, 2, ...), mode and
+   offset -- per axis of the N-d loop ([ap_axis]) and for the 1-d body.  The position of
+   the guards relative to `if n_lhs <= n_rhs: continue` is regenerated from the source
+   ([size_guard_before_skip]); hoisting them breaks these proofs. *)
+Theorem padding_guard_only_on_extended_axes :
+  (forall (m : pmode) (d : direction) (lhs : list R) (n_rhs : nat) (off : Z),
+     (length lhs <= n_rhs)%nat -> apply_padding1 m d lhs n_rhs off = Ok lhs) /\
+  (forall (m : pmode) (d : direction) (shape : list nat) (W : list (list nat)) (ax n_rhs : nat) (off : Z) (lhs : list R),
+     (nth ax shape 0 <= n_rhs)%nat -> ap_axis m d shape W ax n_rhs off lhs = Ok lhs).
+Proof. split; [intros; now apply ap1_skipped | intros; now apply ap_axis_skipped]. Qed.
+Print Assumptions padding_guard_only_on_extended_axes.
+
+(* T1: a resize that does not extend (crop or keep, any length incl. 0 and 1, every mode,
+   admissible offset) never raises, in either direction. *)
+Theorem non_extended_resize_never_raises :
+  forall (m : pmode) (c : R) (x : list R) (n_out : nat) (off : Z),
+  (n_out <= length x)%nat -> offset_ok (length x) n_out off = true ->
+  (exists r, resize1 m Forward c true x n_out off = Ok r /\ length r = n_out) /\
+  (forall y : list R, length y = n_out ->
+     exists ay, resize1 m Adjoint 0 true y (length x) off = Ok ay /\ length ay = length x).
+Proof. exact nonextended_never_rejected. Qed.
+Print Assumptions non_extended_resize_never_raises.
+
 (* T1: forward and adjoint directions are transposes of each other.  For every
    mode, every input length, every output length (growing, shrinking, equal),
    every admissible offset and all contents x, y: both directions succeed and
